@@ -144,6 +144,19 @@ def _run_conv(desc):
         for nm, m in masks.items():
             if not (m[safe] == expect).all():
                 bad("dtyimask_from_%s:wrong" % nm, {"offset": off, "n_wrong": int((m[safe] != expect).sum())})
+    # the point-by-point copy of the in-beam condition (numba get_voxel_idx): for one sample point and a table of (omega, dty) peaks, the
+    # distance it reports is |dty - dty that brings the point into the beam| and it selects the peaks within one step
+    from ImageD11.sinograms import point_by_point as PBP
+    om1 = np.asarray(OMEGAS, float)
+    so1, co1 = np.sin(np.radians(om1)), np.cos(np.radians(om1))
+    for px, py in ((0.0, 0.0), (3.0 * ystep, -4.5 * ystep), (-11.25 * ystep, 7.0 * ystep)):
+        want_dty = G.dty_values_grain_in_beam_sincos(px, py, y0, so1, co1)
+        for doff in (0.0, 0.3 * ystep, -0.97 * ystep, 1.5 * ystep, -4.0 * ystep):
+            dty_pk = want_dty + doff
+            idx, ydist = PBP.get_voxel_idx(y0, px, py, so1, co1, dty_pk, ystep)
+            sel = np.zeros(len(om1), bool); sel[idx] = True
+            if not close(ydist, np.abs(want_dty - dty_pk), 1e-9) or not np.array_equal(sel, np.full(len(om1), abs(doff) <= ystep)):
+                bad("point_by_point.get_voxel_idx:differs-from-geometry", {"point": [px, py], "dty_offset": doff, "selected": int(sel.sum())})
     sh.evaluations += len(sx)
     if y0 != 0:
         sh.nontrivial += len(sx)
